@@ -138,7 +138,30 @@ def full_snapshot(sc, pps):
     s = snap.scenario(sc, meta=False)
     for t in s["network"]["lights"].values():
         t.pop("color", None)
-    return {"scenario": s, "pps": snap.planning_problem_set(pps)}
+    # what the obstacles occupy (derived from states and shapes, cached inside predictions): read before the motion - which fills the caches -
+    # and after it; the occupied regions are moved like everything else
+    occ = {}
+    import numpy as np
+    from commonroad.geometry.shape import Rectangle, Circle
+    from commonroad.prediction.prediction import TrajectoryPrediction
+
+    def exact(st):
+        return isinstance(getattr(st, "position", None), np.ndarray) and isinstance(getattr(st, "orientation", 0.0), (int, float))
+    for o in sc.obstacles:
+        # decided where a rigid motion of the states implies a rigid motion of the occupied region: exact states and a shape centred on the
+        # origin of the obstacle frame (uncertain states give enclosures, off-centre shapes depend on the pivot convention; both are C04's)
+        sh = getattr(o, "obstacle_shape", None)
+        p = getattr(o, "prediction", None)
+        if not (isinstance(sh, (Rectangle, Circle)) and not np.any(sh.center) and hasattr(o, "initial_state") and exact(o.initial_state)):
+            continue
+        if p is not None and not (isinstance(p, TrajectoryPrediction) and isinstance(p.shape, (Rectangle, Circle)) and not np.any(p.shape.center)
+                                  and all(exact(st) for st in p.trajectory.state_list)):
+            continue
+        occ[o.obstacle_id] = []
+        for t in range(0, 6):
+            x = o.occupancy_at_time(t)
+            occ[o.obstacle_id].append(None if x is None else snap.shape(x.shape))
+    return {"scenario": s, "pps": snap.planning_problem_set(pps), "occupied": occ}
 
 
 def scale_of(s0, t):
